@@ -49,6 +49,27 @@ def corpus(pid):
         out.append([l.rstrip('\n') for l in open(f) if l.strip() and not l.startswith('#')])
     return out
 
+# ---- name-type agnosticism: the same script, run by the implementation on names (and filtration
+# indices) of unusual Python types in bijection with the script's plain names (impl.py, exotic mode);
+# outputs are translated back, so the model's run and every oracle are those of the plain script
+_NO_EXOTIC = ('subdiv', 'prefix', 'json', 'wjson', 'rjson', 'asjson', 'lattice', 'relabeldisj')   # these build names from str(name)
+def exotic_variants(pid, scripts, rnd, share=0.12, cap=40):
+    if pid in ('C17',):            # JSON is about str / int names
+        return [], {}
+    out = []; stats = {}
+    for sc in scripts:
+        if len(out) >= cap or rnd.random() >= share:
+            continue
+        toks = set(t for l in sc for t in l.split()[:4])
+        if any(w in toks for w in _NO_EXOTIC) or any(l.startswith('exotic') for l in sc):
+            continue
+        filt = any(l.split()[0] in ('newf', 'setindex') or (l.startswith('! ') and 'newf' in l) for l in sc if l.split())
+        mode = rnd.choice(['frozenset', 'obj', 'bytes'])
+        imode = rnd.choice(['-', 'tuple', 'fraction']) if filt else '-'
+        out.append(['exotic %s %s' % (mode, imode)] + list(sc))
+        k = 'exotic_%s_%s' % (mode, imode); stats[k] = stats.get(k, 0) + 1
+    return out, stats
+
 def merge_stats(total, st):
     for k, v in st.items():
         total[k] = total.get(k, 0) + v
